@@ -17,6 +17,7 @@ import (
 	"go/token"
 	"os"
 	"path/filepath"
+	"sort"
 	"strings"
 )
 
@@ -656,8 +657,71 @@ func dirCheckDialerOpts() ([]string, error) {
 	return fields, nil
 }
 
+// dirScanIsEquivalent walks the whole repository (non-test Go files; vendor / node_modules / hidden
+// directories skipped) and returns every method named IsEquivalent whose single parameter is a
+// directive.Directive, as "<file relative to the repo>:<receiver type>", sorted.
+func dirScanIsEquivalent() ([]string, error) {
+	var out []string
+	fset := token.NewFileSet()
+	err := filepath.WalkDir(repo, func(path string, d os.DirEntry, err error) error {
+		if err != nil {
+			return err
+		}
+		name := d.Name()
+		if d.IsDir() {
+			if path != repo && (strings.HasPrefix(name, ".") || name == "vendor" || name == "node_modules" || name == "testdata") {
+				return filepath.SkipDir
+			}
+			return nil
+		}
+		if !strings.HasSuffix(name, ".go") || strings.HasSuffix(name, "_test.go") {
+			return nil
+		}
+		src, err := os.ReadFile(path)
+		if err != nil {
+			return err
+		}
+		if !strings.Contains(string(src), "IsEquivalent") {
+			return nil
+		}
+		f, err := parser.ParseFile(fset, path, src, parser.SkipObjectResolution)
+		if err != nil {
+			return fmt.Errorf("%s: %v", path, err)
+		}
+		for _, decl := range f.Decls {
+			fd, ok := decl.(*ast.FuncDecl)
+			if !ok || fd.Recv == nil || fd.Name.Name != "IsEquivalent" || len(fd.Recv.List) != 1 {
+				continue
+			}
+			if fd.Type.Params.NumFields() != 1 {
+				continue
+			}
+			// directive.Directive under whatever import name
+			if pt := dirTypeString(fd.Type.Params.List[0].Type); pt != "Directive" && !strings.HasSuffix(pt, ".Directive") {
+				continue
+			}
+			rt := fd.Recv.List[0].Type
+			if se, ok := rt.(*ast.StarExpr); ok {
+				rt = se.X
+			}
+			rel, err := filepath.Rel(repo, path)
+			if err != nil {
+				return err
+			}
+			out = append(out, filepath.ToSlash(rel)+":"+dirTypeString(rt))
+		}
+		return nil
+	})
+	sort.Strings(out)
+	return out, err
+}
+
 func genDirectives() (string, error) {
 	dfields, err := dirCheckDialerOpts()
+	if err != nil {
+		return "", err
+	}
+	scanned, err := dirScanIsEquivalent()
 	if err != nil {
 		return "", err
 	}
@@ -728,6 +792,16 @@ func genDirectives() (string, error) {
 	}
 	sb.WriteString("/-- The directive types covered, in generation order. -/\n")
 	sb.WriteString("def directiveNames : List String := [\"" + strings.Join(names, "\", \"") + "\"]\n\n")
+	var covered []string
+	for _, sp := range dirSpecs {
+		covered = append(covered, sp.file+":"+sp.goType)
+	}
+	sort.Strings(covered)
+	sb.WriteString("/-- The IsEquivalent implementations translated above, as `file:receiver type`, sorted. -/\n")
+	sb.WriteString("def coveredImplementations : List String := [\"" + strings.Join(covered, "\", \"") + "\"]\n\n")
+	sb.WriteString("/-- EVERY method `IsEquivalent(directive.Directive)` found by walking the repository (non-test\n")
+	sb.WriteString("Go files), as `file:receiver type`, sorted. -/\n")
+	sb.WriteString("def scannedImplementations : List String := [\"" + strings.Join(scanned, "\", \"") + "\"]\n\n")
 
 	// ---- across types: the type assertion at the head of each IsEquivalent ----
 	sb.WriteString("/-- One constructor per directive type. -/\ninductive Kind where\n")
